@@ -271,6 +271,17 @@ class CSSImportRule(cssrule.CSSRule):
     )
 
     def _setHref(self, href):
+        """
+        :exceptions:
+            - :exc:`~xml.dom.NoModificationAllowedErr`:
+              Raised if this rule is readonly.
+        """
+        self._checkReadonly()
+        self._loadHref(href)
+
+    def _loadHref(self, href):
+        """Set `href` and load the style sheet it refers to. Not checking
+        readonly as also used by the parent sheet when inserting this rule."""
         # set new href
         self._href = href
         # update seq
@@ -389,6 +400,7 @@ class CSSImportRule(cssrule.CSSRule):
 
     def _setName(self, name=''):
         """Raises xml.dom.SyntaxErr if name is not a string."""
+        self._checkReadonly()
         if name is None or isinstance(name, str):
             # "" or '' handled as None
             if not name:
